@@ -23,6 +23,7 @@ import ZapVerif.Model.TransDeriveX
 import ZapVerif.Model.TransCtorX
 import ZapVerif.Model.TransWritersX
 import ZapVerif.Model.TransStackFmtX
+import ZapVerif.Model.TransGrpcX
 import ZapVerif.Model.Entry
 import ZapVerif.Gen.TransProbe
 /-! `zvdrv CTR`: the interpreter side of the translator's differential test.  An op names a generated table and a
@@ -335,6 +336,8 @@ def derivePar : ZapVerif.TransDerive.Par :=
     werr := fun _ _ _ => [], serr := fun _ => [] }
 
 def tables : List (String × (Env → Ctx)) := [
+  ("TransGrpc", fun e => ZapVerif.TransGrpc.X
+      { sprintln := fun _ => (match e.get "#sprintln" with | some (.bytes x) => x | _ => []), en := fun _ l => enabledOf e l }),
   ("TransStackFmt", fun _ => ZapVerif.TransStackFmt.X),
   ("TransDerive", fun _ => ZapVerif.TransDerive.X derivePar),
   ("TransWriters", fun _ => ZapVerif.TransWriters.X writersPar),
